@@ -180,6 +180,17 @@ def run_check(run, tier):
                 run.add(ob, 'unknown', cur['backend'], cur['ms'], fq, cur.get('detail', ''))
                 run.undecide(ob, cur.get('detail', ''))
     run.hashes.update(sess.repo.hashes)
+    if run.undecided:
+        # constructs outside the subset / unknowns: look for a failing request sequence natively before giving up
+        out = native({'kind': 'filters_search'}, timeout=600)
+        run.bounded.append({'what': 'bounded native search over filter settings and request sequences (refute mode only)', 'tried': out.get('tried'),
+                            'bound': out.get('bound'), 'found': bool(out.get('found'))})
+        f = out.get('found')
+        if f:
+            for ob, why in list(run.undecided):
+                run.violation(ob, {'request': f['request'], 'native': f, 'solver_output': 'undecided (%s); failing request sequence found by the native search' % why},
+                              True, what=f.get('what', ''))
+            run.undecided = []
     run.samples.append({'obligation': 'C12/kevents/selects-exactly.kevent',
                         'goal': 'AND(stage predicates)(e) <=> (tid unset or e.tid == tid) and (no class/subclass filter or '
                                 'e.eventid>>24 in classes or e.eventid>>16 in subclasses), for an arbitrary event e'})
